@@ -172,7 +172,7 @@ def Edge.toRec {P : Type} (e : Edge P) : EdgeRec P := ⟨e.src, e.dst, e.kind, e
 /-! ## Metrics (metrics.go) -/
 
 /-- `metricKindSetKey`: the set of non-empty kinds, as a sorted duplicate-free list -/
-def kindKey (ks : List String) : List String := (sortKinds (ks.filter (fun k => k ≠ ""))).eraseDups
+def kindKey (ks : List String) : List String := ((sortKinds ks).filter (fun k => k ≠ "")).eraseDups
 
 structure Metrics where
   nodeCount : Nat
